@@ -2,6 +2,7 @@ CONSTANTS Big = FALSE CP = 43 CB = 7 CN = 31 CGx = 2 CGy = 12
 WifKeys = {0,1,30,31,1000,1001}
 WifSuffixLens = {0,1,2}
 LongSuffixLen = 120
+LongEvery = 5
 B64Bytes = {0,1,127,128,255}
 B64Chars = {65,66,81,119,47,61,10}
 B64MaxChars = 4
@@ -12,8 +13,7 @@ INIT Init
 NEXT Next
 INVARIANT Sec1AcceptExact
 INVARIANT Sec1RoundTrip
-INVARIANT WifRefusesInvalidKey
-INVARIANT WifRoundTrip
+INVARIANT WifExact
 INVARIANT WifAcceptIsImage
 INVARIANT PemPrivExact
 INVARIANT PemPubExact
